@@ -656,7 +656,7 @@ def correspond(ctx, side, res, answer, replay):
 # ====================================================================== shrinking
 def shrink(ctx, runner, hl, fails):
     """greedy: drop messages, drop cuts, fewer polls, plain stubs.  `hl` = {proto, msgs(desc), cuts, polls, stubs}"""
-    budget = [150]
+    budget = [150 if len(hl["msgs"]) <= 40 else 400]
 
     def still(c):
         if budget[0] <= 0:
@@ -669,6 +669,31 @@ def shrink(ctx, runner, hl, fails):
 
     side = SIDES[hl['proto']]
     cur = dict(hl)
+
+    def without(c, i, j):
+        """`c` with messages i..j-1 removed, cut positions moved accordingly"""
+        frames = [side.frame(side.undesc(d)) for d in c['msgs']]
+        start = sum(len(f) for f in frames[:i])
+        ln = sum(len(f) for f in frames[i:j])
+        cuts = sorted({(x if x <= start else max(start, x - ln)) for x in c['cuts']})
+        return dict(c, msgs=c['msgs'][:i] + c['msgs'][j:], cuts=cuts)
+
+    # long streams (bursts): first remove blocks of messages, halving the block size (then the one-at-a-time loop below)
+    blk = len(cur['msgs']) // 2
+    while blk >= 2 and budget[0] > 40:
+        i, progressed = 0, False
+        while i < len(cur['msgs']) and budget[0] > 40:
+            c2 = without(cur, i, min(len(cur['msgs']), i + blk))
+            if c2['msgs'] and still(c2):
+                cur, progressed = c2, True
+            else:
+                i += blk
+        if not progressed or blk > len(cur['msgs']):
+            blk //= 2
+    if len(cur['cuts']) > 4 and budget[0] > 40:
+        c2 = dict(cur, cuts=[], polls=[1])
+        if still(c2):
+            cur = c2
     changed = True
     while changed and budget[0] > 0:
         changed = False
@@ -840,6 +865,60 @@ def gen_cases(ctx, side, quick):
         if rng.random() < 0.15:
             hl['upto'] = rng.randrange(1, L)         # only a prefix of the stream arrives
         yield 'long:' + mode + (':prefix' if 'upto' in hl else '') + (':slow-callbacks' if 'stubs' in hl else ''), hl
+    # ---- bursts: (many) more complete frames in the reader's buffer at a single poll than any per-poll budget a reader could have;
+    # tiny frames keep this cheap.  The segmentation/timing dimension here is "how many frames had accumulated when the reader looked":
+    # everything in one segment, many segments back to back with no poll in between, a burst in front of / behind a paced part,
+    # bursts separated by single polls.  Logouts are forced at positions in and beyond the 60s, 120s, ... (the frames a budgeted
+    # reader meets at the edge of its budget), heartbeat density from none to nearly all.
+    n_burst = (14 if quick else 300)
+    for bi in range(n_burst):
+        n = rng.choice(BURST_SIZES if side.name == 'soup' else BURST_SIZES[:-2])
+        p_hb = rng.choice([0.0, 0.1, 0.25, 0.6, 0.9])
+        if side.name == 'soup':
+            msgs = [gen_soup_packet(rng, True, p_end=0.0, p_hb=p_hb) for _ in range(n)]
+        else:
+            msgs = [gen_fix_msg(rng, True, p_end=0.0, p_hb=p_hb) for _ in range(n)]
+        r = rng.random()
+        if r < 0.5:        # a logout somewhere at or beyond frame 60 (data frames follow it: they must not be emitted)
+            at = min(n - 1, rng.choice([rng.randrange(60, 70), rng.randrange(60, n), rng.randrange(n - 3, n)]))
+            if side.name == 'soup':
+                msgs[at] = rng.choice(SOUP_LOGOUT)
+            else:
+                msgs[at]['type'] = '5'
+        descs = [side.desc(m) for m in msgs]
+        frames = [side.frame(m) for m in msgs]
+        ends = list(itertools.accumulate(len(f) for f in frames))
+        L = ends[-1]
+        mode = rng.choice(['one-segment', 'back-to-back', 'back-to-back-bytes', 'burst-then-paced', 'paced-then-burst', 'bursts'])
+        if mode == 'one-segment':
+            cuts, polls = [], [1]
+        elif mode == 'back-to-back':        # many segments, no poll between them
+            cuts = sorted(rng.sample(range(1, L), min(L - 1, rng.randint(2, 30))))
+            polls = [0] * len(cuts) + [1]
+        elif mode == 'back-to-back-bytes':  # frame-sized and smaller segments arriving faster than the reader polls
+            cuts = sorted(set(ends[:-1]) | set(rng.sample(range(1, L), min(L - 1, rng.randint(0, 20)))))
+            polls = [0] * len(cuts) + [1]
+        elif mode == 'burst-then-paced':
+            k = rng.randint(n * 2 // 3, n - 1)
+            cuts = [ends[k - 1]] + sorted(c for c in rng.sample(range(ends[k - 1] + 1, L), min(L - ends[k - 1] - 1, rng.randint(0, 6))))
+            polls = [rng.choice([0, 1, 2])] + [rng.choice([0, 1, 1, 2]) for _ in range(len(cuts))]
+        elif mode == 'paced-then-burst':
+            k = rng.randint(1, n // 3)
+            head = sorted(rng.sample(range(1, ends[k - 1]), min(ends[k - 1] - 1, rng.randint(0, 6)))) if ends[k - 1] > 1 else []
+            cuts = head + [ends[k - 1]]
+            polls = [rng.choice([0, 1, 1, 2]) for _ in range(len(cuts))] + [1]
+        else:              # several bursts with one or two polls between them
+            ks = sorted(rng.sample(range(1, n), min(n - 1, rng.randint(1, 3))))
+            cuts = [ends[k - 1] + rng.choice([0, 0, 1, -1]) for k in ks]
+            cuts = sorted(c for c in set(cuts) if 0 < c < L)
+            polls = [rng.choice([1, 1, 2, 3]) for _ in range(len(cuts) + 1)]
+        hl = {'proto': side.name, 'msgs': descs, 'cuts': cuts, 'polls': polls}
+        if rng.random() < 0.15:
+            hl['stubs'] = {'msg': ['turns', rng.randint(1, 2)]}
+        yield 'burst:' + mode, hl
+
+
+BURST_SIZES = [66, 70, 100, 129, 130, 200, 260, 300, 520]
 
 
 def jitter(case, rng):
